@@ -151,10 +151,10 @@ def fixtures(tmp):
 
 
 # ---------------------------------------------------------------- part 1: exit status of jwt-verify
-def verify_list(fx, tokens, via_stdin):
+def verify_list(fx, tokens, via_stdin, final_newline=True):
     base = [tool("jwt-verify"), "-q", "-k", fx["oct_alg"]]
     if via_stdin:
-        rc, out, err = run(base + ["-"], stdin=("\n".join(tokens) + "\n").encode())
+        rc, out, err = run(base + ["-"], stdin=("\n".join(tokens) + ("\n" if final_newline else "")).encode())
     else:
         rc, out, err = run(base + tokens)
     return rc
@@ -192,6 +192,18 @@ def part_exit_status(fx):
                     C.violation("exit-status|%s" % ("zero-despite-failures" if rc == 0 else "nonzero-despite-all-good"),
                                 "composition %s (1=good) via %s: exit status %d" % ("".join(map(str, comp)), "stdin" if via else "argv", rc))
             C.nontrivial()
+    # standard input whose last line has no newline, and input with CRLF line ends
+    for n in (1, 2, 3):
+        if not C.case("jwt-verify with every good/bad composition of %d tokens on standard input, last line unterminated" % n):
+            continue
+        for comp in itertools.product((0, 1), repeat=n):
+            toks = [(good[i % len(good)] if g else bad[i % len(bad)]) for i, g in enumerate(comp)]
+            rc = verify_list(fx, toks, True, final_newline=False)
+            C.obs((rc == 0, all(comp)))
+            if (rc == 0) != all(comp):
+                C.violation("exit-status|unterminated-last-line|%s" % ("zero-despite-failures" if rc == 0 else "nonzero-despite-all-good"),
+                            "composition %s (1=good) on stdin without a final newline: exit status %d" % ("".join(map(str, comp)), rc))
+        C.nontrivial()
     # empty tokens (a blank line on standard input, an empty argument) between real ones: whatever the tool makes of the empty
     # token itself, a failing token anywhere in the list still makes the exit status non-zero
     for n in (2, 3, 4):
